@@ -1,4 +1,4 @@
-"""Call histories for function-like properties (DESIGN.md section 12.9).
+"""Call histories for function-like properties (DESIGN.md section 12.8).
 
 A *history case* is a composite case
     {"cls": "hist:<kind>", "hist": True, "seq": [step, step, ...]}
